@@ -434,7 +434,7 @@ MODELS = {
     "C04": [("LdpcIt_MC", "LdpcIt_quick", "LdpcIt_thorough")],
     "C03": [("LdpcMl_MC", "LdpcMl_quick", "LdpcMl_thorough")],
     "C02": [("RsSession", "RsSession", "RsSession_thorough"), ("ApiModel_MC", "ApiModel", "ApiModel")],
-    "C08": [("ApiModel_MC", "ApiModel", "ApiModel")],
+    "C08": [("ApiModel_MC", "ApiModel", "ApiModel"), ("LdpcIt_MC", "LdpcIt_quick", "LdpcIt_thorough"), ("LdpcIt_MC", "LdpcIt_quick_cb", "LdpcIt_quick_cb")],
     "C10": [("RsSession", "RsSession", "RsSession_thorough"), ("LdpcMl_MC", "LdpcMl_quick", "LdpcMl_thorough"),
             ("ApiModel_MC", "ApiModel", "ApiModel")],
     "C11": [("RsSession", "RsSession", "RsSession_thorough")],
